@@ -1,3 +1,80 @@
+(* C13 — property theorems only.
+   "For every Service, port and set of EndpointSlices, the servers NGINX balances across are exactly the distinct
+   ready addresses of the slices that belong to that Service, expose the referenced port and have an allowed IP
+   family, each with the port the slice publishes; a Service with no such endpoint answers 503 rather than keeping
+   old servers.  With NGINX Plus, endpoint-only changes applied through the API leave NGINX with the same server
+   sets a reload would have produced."
+
+   Specifications ([prescribed], [exposes], [allowed_type], [wf_ports], [serves], [ng_ok], [valid_from]) are
+   declarative and live in C13.Proofs; the functions ([world_eps], [oss_http_block], [plus_run] ...) are the model
+   of the Go code in C13.Model, tied to /repo by the correspondence harness. *)
 From Coq Require Import List String ZArith Bool.
 From NGF Require Import C13.Model C13.Proofs.
 Import ListNotations.
+Open Scope string_scope.
+
+(* Whatever the port lists look like: the resolved endpoints are distinct and are exactly the ready addresses of
+   the slices that carry the Service's name label in its namespace, are not FQDN, have an allowed address type and
+   for which findPort returns a non-zero port, each with that port. *)
+Theorem C13_resolve_exact :
+  forall w v,
+    NoDup (world_eps w v) /\
+    forall e, In e (world_eps w v) <->
+              contributes (v_ns v) (v_name v) (v_port v) (allowed_types (base_family (w_np w))) (w_slices w) e.
+Proof. exact world_eps_general. Qed.
+
+(* findPort means "the port the slice publishes under the Service port's name, or the default port when the slice
+   restricts none".  PARTIAL: needs [wf_ports] (unique port names; a nil port only as the single entry — what API
+   validation and the EndpointSlice controller guarantee).  Outside it the first-entry-wins loop can return the
+   default port although a named entry exists, or the first of two equally named entries. *)
+Theorem C13_find_port_declarative_partial :
+  forall ps sp p, wf_ports ps -> (find_port ps sp = p /\ p <> 0%Z) <-> exposes ps sp p.
+Proof. exact find_port_exposes. Qed.
+
+(* The property's first sentence, in its own words, for all sets of slices with well-formed port lists, all Service
+   ports, all NginxProxy IP-family settings. *)
+Theorem C13_endpoints_exact_partial :
+  forall w v,
+    v_name v <> "" -> (forall s, In s (w_slices w) -> wf_ports (s_ports s)) ->
+    NoDup (world_eps w v) /\ forall e, In e (world_eps w v) <-> prescribed w v e.
+Proof. exact world_eps_exact. Qed.
+
+(* NGINX OSS: with no prescribed endpoint the upstream's only server is the 503 socket (nothing old is kept: the
+   block is a function of the current slices only); otherwise its servers are exactly the prescribed ones. *)
+Theorem C13_no_endpoint_is_503_partial :
+  forall w v,
+    v_name v <> "" -> (forall s, In s (w_slices w) -> wf_ports (s_ports s)) ->
+    ((forall e, ~ prescribed w v e) -> oss_http_block (world_eps w v) = [sock503]) /\
+    ((exists e, prescribed w v e) ->
+     forall srv, In srv (oss_http_block (world_eps w v)) <-> exists e, prescribed w v e /\ srv = fmt_server e).
+Proof. exact oss_http_block_spec. Qed.
+
+(* serversEqual never hides a difference when NGINX's peer list has no repetition. *)
+Theorem C13_servers_equal_sound :
+  forall new old, NoDup old -> servers_equal new old = true -> forall s, In s new <-> In s old.
+Proof. exact servers_equal_sound. Qed.
+
+(* NGINX Plus, every history of batches (first one a ClusterStateChange; an EndpointsOnlyChange keeps the set of
+   referenced Service ports), repaired handler (D32): after the last batch NGINX balances every HTTP upstream and
+   every stream upstream of the configuration across exactly the configuration's endpoints (no repetition), and a
+   stream upstream without endpoints does not exist. *)
+Theorem C13_plus_history :
+  forall steps c,
+    valid_from None steps -> last_conf None steps = Some c ->
+    ng_ok c (h_ng (plus_run true steps hstate0)).
+Proof. exact plus_history_ok. Qed.
+
+(* ... and an endpoint-only change applied through the API leaves the same server sets as a reload would have. *)
+Theorem C13_plus_api_same_as_reload :
+  forall c c' h,
+    wf_conf c' -> hinv c h -> same_shape c c' ->
+    ng_ok c' (h_ng (plus_step true false c' h)) /\ ng_ok c' (h_ng (plus_step true true c' h)).
+Proof. exact api_path_same_as_reload. Qed.
+
+(* D32, the handler as found (EndpointsOnlyChange always goes through the API only): a TLSRoute backend without
+   ready endpoints when the configuration was loaded never gets its servers. *)
+Theorem C13_plus_asfound_refuted :
+  exists steps c,
+    valid_from None steps /\ last_conf None steps = Some c /\
+    ~ ng_ok c (h_ng (plus_run false steps hstate0)).
+Proof. exists d32_steps, d32_c1. split; [exact d32_valid | split; [reflexivity | exact d32_refuted]]. Qed.
